@@ -69,7 +69,7 @@ claim("C03",
       "(directly or through a verified out-parameter), so the reuse shortcut of reader_iter_seek can never see a stale identity; seek past the "
       "end only marks the iterator invalid, failure is sticky, next advances iff not first; needs_index_seek equals its six-disjunct table; the "
       "continue-from-current shortcut of block_iter_seek is taken only for sign(current,target)=LT inside the located run, and an exhausted block iterator carries restart_index = num_restarts so the shortcut cannot match it. The contract over "
-      "all (position,target) histories is not decided. Also decides the dispatch wiring of the function tables; re-runs C09.R6 (C03.D.*).",
+      "all (position,target) histories is not decided. Also decides the dispatch wiring of the function tables; re-runs C09.R6 (C03.D.*). The in-block search (galloping, bisection, continue-from-current shortcut, linear scan) is decided in the order domain: for every block of up to 5 restart points (6 thorough), restart interval 1..3, every iterator state (fresh, at any entry, exhausted) and every position of the target among the keys, block_iter_seek ends on the first entry >= target or exhausted, and never indexes outside the restart array.",
       "Trusts T-cmp rows 2,3,8,10; out-parameter coupling is verified inside the callee by path evaluation; loop bound 1.")
 
 claim("C02",
@@ -78,7 +78,7 @@ claim("C02",
       "ITER never ends early, the switch covers every kind; each lookup constructor positions with and bounds by the right parameters and starts its iterator with first=true, valid=true, and gives up (NULL) only when no block could be loaded; bytes_compare's "
       "nine-case table (a path that compares no bytes still returns the sign of the length relation) (memcmp sign, else length relation; min length; operand order); no relational operator on plain/signed char bytes anywhere in the "
       "library; bisection/linear-scan accept sets; separator computed iff a block is cut, right before the flush. That index search plus block search "
-      "land on the right entry for every table/query, and the separator arithmetic, are not decided. Also decides the dispatch wiring of the mtbl_iter / mtbl_source function tables (slots of equal signature are not cross-wired at registration, in the wrappers or at any construction site); re-runs C09.R6 (C02.D.*): lookups are routed by the separator keys.",
+      "land on the right entry for every table/query, and the separator arithmetic, are not decided. Also decides the dispatch wiring of the mtbl_iter / mtbl_source function tables (slots of equal signature are not cross-wired at registration, in the wrappers or at any construction site); re-runs C09.R6 (C02.D.*): lookups are routed by the separator keys. The in-block search (galloping, bisection, continue-from-current shortcut, linear scan) is decided in the order domain: for every block of up to 5 restart points (6 thorough), restart interval 1..3, every iterator state (fresh, at any entry, exhausted) and every position of the target among the keys, block_iter_seek ends on the first entry >= target or exhausted, and never indexes outside the restart array.",
       "Trusts memcmp's unsigned-byte semantics, T-cmp rows 4-7,9,11,22, and that lookups reach the reader only through the constructor table.")
 
 claim("C15",
@@ -142,13 +142,13 @@ claim("C07",
       "Trusts that equal timestamps mean the same generation (as the code does), T-cmp rows 24/25, loop bound 1 for the file loop.")
 
 claim("C17",
-      "recomputation of the Castagnoli slicing tables compared with the 2048 initialiser constants in the AST; byte accounting of both implementations by abstract path evaluation and structural recognition of the slicing-by-8 combination",
+      "recomputation of the Castagnoli slicing tables compared with the 2048 initialiser constants in the AST; abstract interpretation of both implementations over GF(2) (bits are XORs of named input bits) compared with the standard algorithm as affine forms",
       "Decides completely that all 2048 table constants equal the CRC-32C tables derived from polynomial 0x82F63B78 (thorough tier: also the byte-reversed big-endian tables). "
-      "Decides: with the length fixed to each of 0..39 (0..199 thorough) the SSE4.2 routine consumes exactly that many bytes, in order, each step at the running offset with its own operand width, chained through the running crc (shape-independent: switch or cascade); "
-      "the table-driven code is head (byte steps to alignment) / main (len/8 groups, table k serving byte 7-k, shifts 0/8/16/24) / tail (len&7 byte steps) with the standard byte step; "
-      "both start at 0xFFFFFFFF and return the complement; the wrapper forwards (buf,size); only the two implementations and the trampoline are installed. The semantics of the "
-      "crc32 instructions and the equality of the two implementations as functions are not decided - the pinned tests only ever run the SSE4.2 path on this host.",
-      "Trusts the slicing-by-8 derivation encoded in the rule, the inline-asm crc32 instructions, and little-endian loads on this target.")
+      "Decides, for every content of every buffer length 0..26 (0..72 thorough) at addresses 0,1,3,4,7 (all eight thorough) modulo 8, that the SSE4.2 routine and the table-driven routine each return "
+      "the standard CRC-32C: exclusive-or, shifts, masks and little-endian loads are exact in the domain, a lookup in a slicing table with a symbolic index is exact because every table is verified "
+      "to be affine over GF(2), and the crc32b/w/l/q instructions are modelled by their definition; 32 affine forms per case must equal those of the reference algorithm run on the same symbols. "
+      "Also: no byte outside [buf, buf+len) is read; the wrapper forwards (buf,size); only the two implementations and the trampoline are installed. Lengths beyond the enumerated ones rest on the loops' uniformity and are not decided.",
+      "Trusts the architectural definition of the crc32 instructions and little-endian loads on this target; no input value is chosen and no solver is involved.")
 
 claim("C09",
       "sibling/table agreement of writer-side emit sequences (abstract path evaluation) with the declarative MTBL v2 format table; path rules for CRC scope, restart cadence, size gate and offset bookkeeping",
@@ -157,7 +157,7 @@ claim("C09",
       "agrees with it; a framed block is varint64 length, 4-byte little-endian CRC32C, stored bytes, and the returned size is their sum; the checksum is taken over (data,len_data) of the "
       "same block after their last definition and nothing between compression and the file changes them; restart cadence and reset table; a block is cut iff estimate+15+len_key+len_val "
       ">= block_size; the index entry carries the offset the block started at and pending_offset starts at the descriptor's offset and grows by the bytes written; trailer layout as in C10; every increment applied to separator bytes is guarded against wrap-around and a value computed from a multi-byte read is written back whole (the index key cannot drop below the block's last key that way). "
-      "The bytes of real files (which need an independent decoder run on outputs) and the separator arithmetic are not decided. Also decides that every block record reaching the block-writing function has had its crc field stored on every path, inline or through the pool's work function (definite assignment); re-runs C16 and C17 (C09.D.*). Also decides the container contract of libmy/vector.h (the macro all buffers, restart arrays, heap arrays and entry lists are generated from) with an allocation-aware interpreter: in 36 scenarios per family (1-byte, 8-byte integer and pointer elements) every operation keeps the representation invariant, preserves the elements, meets its post-condition and stays inside live allocations. Also decides, by interpreting the real block builder on builders whose entry buffer is tightened to size+d bytes before every add and before finish (d = 0..11, 0..23 thorough), that every write stays inside what was reserved and the finished size is entries + 4 per restart + 4.",
+      "The bytes of real files (which need an independent decoder run on outputs) and the separator arithmetic are not decided. Also decides that every block record reaching the block-writing function has had its crc field stored on every path, inline or through the pool's work function (definite assignment); re-runs C16 and C17 (C09.D.*). Also decides the container contract of libmy/vector.h (the macro all buffers, restart arrays, heap arrays and entry lists are generated from) with an allocation-aware interpreter: in 36 scenarios per family (1-byte, 8-byte integer and pointer elements) every operation keeps the representation invariant, preserves the elements, meets its post-condition and stays inside live allocations. Also decides, by interpreting the real block builder on builders whose entry buffer is tightened to size+d bytes before every add and before finish (d = 0..11, 0..23 thorough), that every write stays inside what was reserved and the finished size is entries + 4 per restart + 4. The entry row and block trailer of the format are decided on the bytes the real block builder produces when interpreted on entries of concrete lengths (0..131, single- and multi-byte headers) and symbolic bytes: varint(shared) varint(non_shared) varint(value_len) suffix value with truly shared bytes, restart points every interval entries, 32-bit little-endian restart offsets and their count.",
       "Trusts T-format (written from the LevelDB block format and mtbl's documentation), the varint/fixed codecs (decided separately by C16), loop bound 1.")
 
 claim("C11",
@@ -175,7 +175,7 @@ claim("C01",
       "block builder exactly once with the caller's key/value after any block cut and a refused add never does; a finished builder is reset before reuse, a cut block goes either to the pool "
       "once or is compressed then written once, finish runs flush < join < index block < one 512-byte trailer; an exhausted block makes next advance the index once, load the block it names "
       "and position at its first entry, failing only at the end of the index; mtbl_dump prints an entry iff not silent and both prefix tests (length and bytes) and both minimum lengths hold. "
-      "That prefix sharing, restart offsets and block cuts compose to the identity for every key sequence and configuration, and the compression libraries, are not decided. Also decides (R6) that the quantity block_builder_empty tests is emptied by reset and grows by a provably positive amount on every path of block_builder_add, so no non-empty block is skipped at flush; and re-runs the rules of C20 and C16 (labelled C01.D.*) because the round trip rests on them. Also decides the container contract of libmy/vector.h (the macro all buffers, restart arrays, heap arrays and entry lists are generated from) with an allocation-aware interpreter: in 36 scenarios per family (1-byte, 8-byte integer and pointer elements) every operation keeps the representation invariant, preserves the elements, meets its post-condition and stays inside live allocations. Also decides, by interpreting the real block builder on builders whose entry buffer is tightened to size+d bytes before every add and before finish (d = 0..11, 0..23 thorough), that every write stays inside what was reserved and the finished size is entries + 4 per restart + 4. Also decides the dispatch wiring of the mtbl_iter / mtbl_source function tables (registration, wrappers, construction sites).",
+      "That prefix sharing, restart offsets and block cuts compose to the identity for every key sequence and configuration, and the compression libraries, are not decided. Also decides (R6) that the quantity block_builder_empty tests is emptied by reset and grows by a provably positive amount on every path of block_builder_add, so no non-empty block is skipped at flush; and re-runs the rules of C20 and C16 (labelled C01.D.*) because the round trip rests on them. Also decides the container contract of libmy/vector.h (the macro all buffers, restart arrays, heap arrays and entry lists are generated from) with an allocation-aware interpreter: in 36 scenarios per family (1-byte, 8-byte integer and pointer elements) every operation keeps the representation invariant, preserves the elements, meets its post-condition and stays inside live allocations. Also decides, by interpreting the real block builder on builders whose entry buffer is tightened to size+d bytes before every add and before finish (d = 0..11, 0..23 thorough), that every write stays inside what was reserved and the finished size is entries + 4 per restart + 4. Also decides the dispatch wiring of the mtbl_iter / mtbl_source function tables (registration, wrappers, construction sites). The entry row and block trailer of the format are decided on the bytes the real block builder produces when interpreted on entries of concrete lengths (0..131, single- and multi-byte headers) and symbolic bytes: varint(shared) varint(non_shared) varint(value_len) suffix value with truly shared bytes, restart points every interval entries, 32-bit little-endian restart offsets and their count.",
       "Trusts T-format, the varint codecs (decided separately by C16), loop bound 1, three-valued evaluation of the dump formula over the atoms each path constrains.")
 
 claim("C12",
